@@ -274,7 +274,7 @@ class IdAllocator:
         return k
 
 
-def run_stack(cfg, strategy, max_steps=60000):
+def run_stack(cfg, strategy, max_steps=250000):
     import logging
 
     from mpservice.mpserver import _server, _servlet, _worker
